@@ -263,7 +263,18 @@ def _pre_outcomes(graph, treatments, outcomes, conditions=None):
 
 
 def _sets(treatments, outcomes, conditions):
+    """The query the caller asked: read from the arguments; a one-shot iterable has been consumed by the call, so the
+    driver's declared intent (LOG.case['intended']) stands in for it - and without one the call is not judged."""
     from y0.dsl import Variable
+
+    oneshot = any(x is not None and not isinstance(x, (Variable, set, frozenset, list, tuple))
+                  for x in (treatments, outcomes, conditions))
+    if oneshot:
+        it = (kernel.LOG.case or {}).get("intended")
+        if not it:
+            kernel.count("id:one-shot-arguments-not-judged")
+            return None
+        return ({Variable(x) for x in it["X"]}, {Variable(y) for y in it["Y"]}, {Variable(z) for z in it["Z"]})
 
     def s(x):
         if x is None:
@@ -276,8 +287,9 @@ def _sets(treatments, outcomes, conditions):
 def _post_outcomes(snap, res, graph, treatments, outcomes, conditions=None):
     try:
         if snap is not None and len(_stack) == 1:
-            X, Y, Z = _sets(treatments, outcomes, conditions)
-            _judge_common("identify_outcomes", snap, graph, X, Y, Z, res, None)
+            xyz = _sets(treatments, outcomes, conditions)
+            if xyz is not None:
+                _judge_common("identify_outcomes", snap, graph, *xyz, res, None)
     finally:
         _leave()
 
@@ -285,8 +297,10 @@ def _post_outcomes(snap, res, graph, treatments, outcomes, conditions=None):
 def _raise_outcomes(snap, exc, graph, treatments, outcomes, conditions=None):
     try:
         if snap is not None and len(_stack) == 1:
-            X, Y, Z = _sets(treatments, outcomes, conditions)
-            _judge_common("identify_outcomes", snap, graph, X, Y, Z, None, exc)
+            xyz = _sets(treatments, outcomes, conditions)
+            if xyz is not None and not (isinstance(exc, TypeError) and "intended" in (kernel.LOG.case or {})
+                                        and str((kernel.LOG.case or {}).get("via", "")).endswith("-iter")):
+                _judge_common("identify_outcomes", snap, graph, *xyz, None, exc)
     finally:
         _leave()
 
